@@ -219,6 +219,8 @@ struct CrossTokenParseState {
     queued_tokens: Vec<TokenizeResult>,
     /// Are we in an arithmetic expansion?
     arithmetic_expansion: bool,
+    /// The blank (space or tab) that most recently delimited a token.
+    last_delimiting_blank: char,
 }
 
 /// Options controlling how the tokenizer operates.
@@ -561,6 +563,7 @@ impl<'a, R: ?Sized + std::io::BufRead> Tokenizer<'a, R> {
                 current_here_tags: vec![],
                 queued_tokens: vec![],
                 arithmetic_expansion: false,
+                last_delimiting_blank: ' ',
             },
         }
     }
@@ -1001,9 +1004,11 @@ impl<'a, R: ?Sized + std::io::BufRead> Tokenizer<'a, R> {
 
                                     pending_here_doc_tokens.remove(0)
                                 } else {
+                                    // N.B. The text inside `${...}` is data (default words,
+                                    // patterns): every blank counts.
                                     let cur_token = self.next_token_until(
                                         Some('}'),
-                                        false, /* include space? */
+                                        true, /* include space? */
                                     )?;
 
                                     // See if this is a here-document-related token we need to hold
@@ -1038,7 +1043,9 @@ impl<'a, R: ?Sized + std::io::BufRead> Tokenizer<'a, R> {
                                     TokenEndReason::HereDocumentBodyStart => {
                                         state.append_char('\n');
                                     }
-                                    TokenEndReason::NonNewLineBlank => state.append_char(' '),
+                                    TokenEndReason::NonNewLineBlank => {
+                                        state.append_char(self.cross_state.last_delimiting_blank);
+                                    }
                                     TokenEndReason::SpecifiedTerminatingChar => {
                                         // We hit the end brace we were looking for but did not
                                         // yet consume it. Do so now.
@@ -1154,6 +1161,7 @@ impl<'a, R: ?Sized + std::io::BufRead> Tokenizer<'a, R> {
             //
             } else if state.unquoted() && is_blank(c) {
                 if state.started_token() {
+                    self.cross_state.last_delimiting_blank = c;
                     result = state.delimit_current_token(
                         TokenEndReason::NonNewLineBlank,
                         &mut self.cross_state,
@@ -1183,7 +1191,9 @@ impl<'a, R: ?Sized + std::io::BufRead> Tokenizer<'a, R> {
             //
             else if !state.token_is_operator
                 && (state.started_token() || matches!(terminating_char, Some('}')))
-                && !(c == '#' && state.only_blanks_so_far())
+                && !(c == '#'
+                    && state.only_blanks_so_far()
+                    && !matches!(terminating_char, Some('}')))
             {
                 self.consume_char()?;
                 state.append_char(c);
